@@ -10,6 +10,7 @@ import CxxModel.Theorems.DeclPre
 import CxxModel.Theorems.ParamGen
 import CxxModel.Theorems.ArrayDecl
 import CxxModel.Theorems.AliasPre
+import CxxModel.Theorems.BitsDecl
 import CxxModel.Theorems.MemberKinds
 namespace Cxx
 open P
@@ -371,6 +372,30 @@ def Item.aliasPre (kw a eq : Tok) (spec : List Tok) (segs : List PQSeg) (cst vol
         toplevel_using_alias_pre env hp F (D + 1 + 1) w kw a eq spec f r segs cst vol (tvs ops) ops semi d1 bk ba bq b1 b0 bmid b' blk rest hst hmu
           (by rw [hnf]; simp) t0 h1 t1 h2 t2 h3 t3 hspec hfr hy0 hhead hy1 hpre hfn rfl hy.single_inv h9 h10
       exact ⟨w7, _, ev, hi7, by rw [hb]; exact .refl _, hst7, hev7, ⟨d, hk7, hid7, hpar7⟩, hmu7⟩)
+
+/-- `S prefix x : width ;` in a class body: a bit-field member over any type specifier and declarator prefix -/
+def Member.bitFieldPre (v : DeclToks) (colon num : Tok) : Member env F (core F (D + 1 + 1 + 1 + 1)) :=
+  Member.single (fun b b' => (v.OK env F (D + 1 + 1) ∧ colon.type = ":" ∧ num.type = "INT_CONST_DEC" ∧ allDigits num.value = true) ∧
+      Yields env.cfg b (v.spec ++ (v.ops ++ [v.x, colon, num, v.semi])) b')
+    (fun blk rest acc ev => ∃ dox, ItemEvent blk rest ev (.classField { plainField v.x v.d1 acc dox with bits := some num.value.toNat! }))
+    (by
+      intro b b' k ⟨hok, hy⟩ hs
+      obtain ⟨k', hy', hs'⟩ := hy.sigEq hs
+      exact ⟨k', ⟨hok, hy'⟩, hs'⟩)
+    (by
+      intro w b' blk rest acc hst hk hacc hmu ⟨⟨hok, hc, hn, hdig⟩, hy⟩
+      obtain ⟨hspec, ⟨f, r, hfr, hfirst⟩, hhead, hpre, hfn, hx, hxv, hs, hF⟩ := hok
+      rw [hfr] at hy
+      obtain ⟨b1, h1, hy⟩ := Yields.cons_inv hy
+      obtain ⟨b0, h5, hy⟩ := hy.split
+      obtain ⟨bmid, h8, hy⟩ := hy.split
+      obtain ⟨bx, h10, hy⟩ := hy.cons_inv
+      obtain ⟨bc, h11, hy⟩ := hy.cons_inv
+      obtain ⟨bn, h12, hy⟩ := hy.cons_inv
+      obtain ⟨d, bD, w7, ct, dox, ev, _, hi7, hsig7, _, hst7, hev7, hk7, hid7, hpar7, _, _, _, hmu7, _⟩ :=
+        toplevel_field_bits_pre env hp F (D + 1 + 1) w v.spec f r v.segs v.cst v.vol (tvs v.ops) v.ops v.x colon num v.semi v.d1 b1 b0 bmid bx bc bn b' blk rest hst hk acc hacc hmu
+          (by rw [hnf]; simp) hspec hfr hfirst h1 h5 hhead h8 hpre hfn rfl h10 hx hxv h11 hc h12 hn hdig hy.single_inv hs hF
+      exact ⟨w7, _, ev, hi7, hsig7, hst7, hev7, ⟨dox, hk7, hid7, hpar7⟩, hmu7⟩)
 
 end kinds
 
